@@ -386,6 +386,13 @@ def standin_qudit_circuits(tier, seed):
         "terminal measurement first, a non-terminal one of the same key later": cirq.Circuit(cirq.X(qa), cirq.measure(qa, key="a"), cirq.measure(qb, key="a"), cirq.X(qb)),
         "two deferred and one terminal": cirq.Circuit(cirq.X(qa), cirq.measure(qa, key="a"), cirq.X(qb).with_classical_controls("a"), cirq.measure(qb, key="a"), cirq.X(qa).with_classical_controls("a"), cirq.measure(qa, key="a")),
     }
+    # readout confusion given for a pair of the measured qubits in DESCENDING order (a deterministic, asymmetric map), read by a control: deferred
+    qc = cirq.LineQubit(2)
+    perm_map = np.eye(4)[[2, 0, 3, 1]]                      # (first named, second named) digits: 00->10, 01->00, 10->11, 11->01
+    for key_ in ((1, 0), (0, 1)):
+        for prep_ in ([], [cirq.X(qa)], [cirq.X(qb)], [cirq.X(qa), cirq.X(qb)]):
+            repeated[f"confusion map on indices {key_}, prepared {[str(o) for o in prep_]}"] = cirq.Circuit(
+                prep_, cirq.measure(qa, qb, key="a", confusion_map={key_: perm_map}), cirq.X(qc).with_classical_controls(cirq.BitMaskKeyCondition("a", bitmask=1)), cirq.measure(qc, key="b"))
     for rname, circ in repeated.items():
         cases += 1
         try:
